@@ -143,9 +143,10 @@ public:
     ///@todo: change byte_t* to void*
     auto read(byte_t* data, std::size_t count) -> std::size_t
     {
+        // (count is passed on as it is: narrowed to int, 2^31 .. 2^32-1 became a negative number and a huge size_t again)
         std::size_t num_elements = fread( data
                                         , 1
-                                        , static_cast<int>( count )
+                                        , count
                                         , get()
                                         );
 
